@@ -271,14 +271,24 @@ def token_rule(run, f, rid):
 # buffer-release notification; multishot accept/recv/poll/timeout: one per event) need an extra protocol (skip the
 # F_NOTIF / follow F_MORE) that adapt_io_uring does not have.
 ONE_COMPLETION = {
+    # submitted today
     "Accept", "AsyncCancel", "Close", "Connect", "EpollCtl", "Fsync", "MkDirAt", "OpenAt", "PollAdd", "PollRemove", "Read", "Readv", "Recv",
     "RecvMsg", "RenameAt", "Send", "SendMsg", "Shutdown", "Socket", "Timeout", "TimeoutRemove", "TimeoutUpdate", "Write", "Writev",
+    # the other single-completion opcodes of io-uring 0.7 (so that hooking one more system call is not reported):
+    # one SQE, one CQE, no F_MORE / F_NOTIF
+    "Nop", "ReadFixed", "WriteFixed", "ReadvFixed", "WritevFixed", "SyncFileRange", "SetSockOpt", "AsyncCancel2", "LinkTimeout", "Fallocate",
+    "FilesUpdate", "Statx", "Fadvise", "Madvise", "OpenAt2", "Splice", "Tee", "ProvideBuffers", "RemoveBuffers", "UnlinkAt", "SymlinkAt", "LinkAt",
+    "GetXattr", "SetXattr", "FGetXattr", "FSetXattr", "MsgRingData", "MsgRingSendFd", "UringCmd16", "UringCmd80", "FutexWait", "FutexWake",
+    "FutexWaitV", "WaitId", "FixedFdInstall", "Ftruncate", "Bind", "Listen", "EpollWait", "Pipe",
 }
 MANY_COMPLETIONS = {
     "SendZc": "posts the result and, later, a second completion (IORING_CQE_F_NOTIF, result 0) when the buffer is released",
     "SendMsgZc": "posts the result and, later, a second completion (IORING_CQE_F_NOTIF, result 0) when the buffers are released",
+    "RecvZc": "zero-copy receive: one completion per chunk (F_MORE)",
     "AcceptMulti": "multishot: one completion per accepted connection", "RecvMulti": "multishot: one completion per datagram/chunk",
     "RecvMsgMulti": "multishot: one completion per message", "ReadMulti": "multishot: one completion per read",
+    "RecvMultiBundle": "multishot: one completion per bundle", "SendBundle": "may post several completions (one per bundle sent, F_MORE)",
+    "RecvBundle": "a bundle completion covers several provided buffers; with F_MORE further completions follow",
 }
 # builder options that turn a one-completion opcode into a multishot one
 MULTI_OPTIONS = {"PollAdd::multi": "multishot poll: one completion per event", "Timeout::flags": "may carry IORING_TIMEOUT_MULTISHOT",
